@@ -778,7 +778,14 @@ func (e *Ev) fieldOf(base Val, name string, n ast.Node) Val {
 	case VSub:
 		return e.subField(b, name, n)
 	case VErr:
-		// fields of *Error are not modelled (message text)
+		// fields of *Error only feed message texts: an unknown value of the field's type
+		if !e.contract {
+			if ex, ok := n.(ast.Expr); ok {
+				if t := e.typeOf(ex); t != nil {
+					return e.fx.fresh(t, "errfield_"+name)
+				}
+			}
+		}
 		e.unsupp(n, "field %s of an error value is not modelled", name)
 	}
 	e.unsupp(n, "selector .%s on %T", name, base)
